@@ -74,6 +74,31 @@ class World:
         self.newtypes = {}
         self._py_cache = {}
 
+    def mid(self, cid):
+        """Model class id: frozen (hashable) classes are numbered from 100 up."""
+        return cid + 100 if self.specs[cid].kind == "frozen" else cid
+
+    def type_hashable(self, t, seen=()):
+        k = t[0]
+        if k in ("prim", "enum", "lit"):
+            return True
+        if k == "newtype":
+            return self.type_hashable(t[2], seen)
+        if k == "annot":
+            return self.type_hashable(t[1], seen)
+        if k == "opt":
+            return self.type_hashable(t[1], seen)
+        if k == "fset":
+            return True
+        if k == "tuphom":
+            return self.type_hashable(t[1], seen)
+        if k == "tuple":
+            return all(self.type_hashable(x, seen) for x in t[1])
+        if k == "class":
+            spec = self.specs[t[1]]
+            return spec.kind == "frozen" and t[1] not in seen and all(f.type is not None and self.type_hashable(f.type, seen + (t[1],)) for f in spec.fields)
+        return False
+
     # ---------------------------------------------------------------- python typing objects
     def to_py(self, t):
         k = t[0]
@@ -144,7 +169,7 @@ class World:
         if k == "opt":
             return f"(TOpt {self.cty(t[1])})"
         if k in ("class", "self"):
-            return f"(TClass {t[1]}%N)"
+            return f"(TClass {self.mid(t[1]) if t[1] < len(self.specs) else t[1]}%N)"
         if k == "newtype":
             return f"(TNewType {t[1]}%N {self.cty(t[2])})"
         if k == "annot":
@@ -178,7 +203,7 @@ class World:
                 for f in self.specs[cid].fields:
                     if hasattr(v, f.name):
                         fs.append(f"({self.intern(f.name)}%N, {self.cval(getattr(v, f.name))})")
-                return f"(VInst {cid}%N [" + "; ".join(fs) + "])"
+                return f"(VInst {self.mid(cid)}%N [" + "; ".join(fs) + "])"
         raise Unencodable(repr(tv))
 
     def cfield(self, f: FieldSpec, kw_seen):
@@ -194,7 +219,7 @@ class World:
             seen = seen_kw_only(cl)
             fields = "[" + "; ".join(self.cfield(f, seen[f.name]) for f in spec.fields) + "]"
             types = "[" + "; ".join(f"({self.intern(f.name)}%N, {self.cty(f.type)})" for f in spec.fields if f.type is not None) + "]"
-            out.append(f"({spec.cid}%N, {{| cd_fields := {fields}; cd_types := {types} |}})")
+            out.append(f"({self.mid(spec.cid)}%N, {{| cd_fields := {fields}; cd_types := {types} |}})")
         return "[" + ";\n   ".join(out) + "]"
 
     def cenums(self):
@@ -236,6 +261,9 @@ def gen_type(w: World, depth: int, cid_limit: int, hashable=False, self_cid=None
             return gen_literal(w)
         if r < 0.95 and p.get("newtype", True):
             return ("newtype", rng.randrange(1, 40), ("prim", rng.choice(["int", "str"])))
+        cands = [c for c in range(cid_limit) if w.type_hashable(("class", c))]
+        if cands and p.get("class_keys", True):
+            return ("class", rng.choice(cands))
         return ("prim", "int")
     if leaf:
         r = rng.random()
@@ -304,14 +332,17 @@ def gen_class(w: World, cid: int) -> ClassSpec:
     fields = []
     seen_default_pos = False
     recursive = False
+    hash_cls = kind == "frozen" and rng.random() < 0.6
     for i in range(n):
         private = kind != "dataclass" and rng.random() < p.get("private", 0.15)
         name = f"_p{i}" if private else f"f{i}"
         alias = name.lstrip("_")
         untyped = kind != "dataclass" and rng.random() < p.get("untyped", 0.08)
         t = None if untyped else gen_type(w, p.get("depth", 3), cid)
+        if hash_cls:
+            t = gen_type(w, 1, cid, hashable=True)      # a frozen class usable as set element / mapping key
         # a recursive reference (attrs only): Optional[Self] or List[Self]
-        if kind != "dataclass" and not recursive and rng.random() < p.get("recursive", 0.12):
+        if kind != "dataclass" and not recursive and not hash_cls and rng.random() < p.get("recursive", 0.12):
             t = rng.choice([("opt", ("self", cid)), ("list", ("self", cid), 0), ("dict", ("prim", "str"), ("self", cid), 0)])
             recursive = True
         init = not (rng.random() < p.get("init_false", 0.0))
